@@ -39,7 +39,7 @@ Inductive sop :=
 
 Inductive case :=
 | CVerify (st : hstore) (h : xheader) (res : N)
-| CMulti (msg : N) (keys : list N) (m : Z) (sigs : list sigv) (res : N)
+| CMulti (msg : N) (keys : list bkey) (m : Z) (sigs : list sigv) (res : N)
 | CSync (ops : list sop)
         (final_kh : list (N * list N))              (* stored KeyHeights per chain, stored order *)
         (final_peers : list ((N * N) * list N))     (* stored ConsensusPeers per (chain, key height) *)
